@@ -229,8 +229,20 @@ def sink_seq(b, sites, value_of, resolve_vec=True):
         # every element reaches the sink: no path through the loop body comes back to the header without passing the site
         si_ = b.switch_info(nx.target)
         some_ = [tt for v_, tt in si_[1] if v_ == 1] if si_ else []
-        if not some_ or not b.all_paths_pass(some_[0], [c.bb], dst_set={nx.bb}):
+        if not some_:
             return None
+        if not b.all_paths_pass(some_[0], [c.bb], dst_set={nx.bb}):
+            # `if let Some(v) = map.get(elem) { sink(v) }`: the element is skipped only where the lookup whose payload is written finds nothing -- the sequence of
+            # the values of the keys that are present, like `filter_map(|k| map.get(k))`
+            skip = []
+            if len(p) == 1 and p[0][0] == "lookup":
+                pay = peel(v_res, transparent=ID_CALLS)
+                for bi_ in b.reach(some_[0], avoid_blocks=[nx.bb]):
+                    si2 = b.switch_info(bi_)
+                    if si2 and si2[0][0] == "discr" and is_call(peel(si2[0][1], transparent=[]), ["HashMap::get", "BTreeMap::get"]) and peel(si2[0][1], transparent=[]) == peel(pay, transparent=[]):
+                        skip += [(bi_, t_) for v_, t_ in si2[1] if v_ == 0]
+            if not skip or nx.bb in b.reach(some_[0], avoid_blocks=[c.bb], avoid_edges=skip):
+                return None
         for seg in src:
             if seg[0] == "each":
                 out.append(("each", seg[1], seg[2] + p, seg[3]))
